@@ -230,6 +230,10 @@ func (m *Machine) chanRecv(th *Thread, cv Value, commaOk bool, fr *Frame, in *ss
 		c.buf = c.buf[1:]
 		if th.recvReg[c] {
 			delete(th.recvReg, c)
+		} else if c.cap == 0 {
+			// the value had been handed to a registered waiter (the sender counted it off); this
+			// thread took it first, so that waiter is still waiting and counts again
+			c.recvWait++
 		}
 		m.wantYield = "recv"
 		return mk(v, true)
@@ -397,6 +401,14 @@ func (m *Machine) doSelect(th *Thread, fr *Frame, in *ssa.Select) {
 				}
 				return false
 			})
+		}
+	}
+	// a value taken from the hand-off slot of an unbuffered channel this thread was not registered on
+	// had been counted off for another, still waiting receiver: that one counts again
+	if idx >= 0 && !states[idx].send {
+		if c := states[idx].c; c != nil && !c.timer && c.cap == 0 && len(c.buf) > 0 && !th.recvReg[c] {
+			m.logUndoChan(c)
+			c.recvWait++
 		}
 	}
 	// unregister receiver registrations
